@@ -141,12 +141,13 @@ class Translator(object):
 
     # ---- main entry
     def function(self, qualname, consts=None, capture=None, free_on_call=(), inline=(),
-                 name=None, param_order=None, drop_params=()):
+                 name=None, param_order=None, drop_params=(), callees=None):
         """consts: parameter/global name -> python constant (partial evaluation).
         capture: None (the return value) | ('assign', var, k[, unwrap_fn]) the k-th real-valued
         assignment to var (optionally unwrapping a call to unwrap_fn, e.g. 'ln')."""
         fn = self.find(qualname)
         st = _State(self, consts or {}, capture, set(free_on_call), set(inline))
+        st.callees = dict(callees or {})
         params = []
         defaults = dict()
         a = fn.args
@@ -207,6 +208,7 @@ class _State(object):
     def __init__(self, tr, consts, capture, free_on_call, inline):
         self.tr, self.capture = tr, capture
         self.free_on_call, self.inline = free_on_call, inline
+        self.callees = {}
         self.consts = consts
         self.env = {}
         self.lets = []
@@ -659,6 +661,11 @@ class _State(object):
             z = self.fold_affine(x, mu, s)
             return ('bin', '/', ('call', 'exp', [('neg', ('bin', '/', ('bin', '*', z, z), ir.num(2)))]),
                     ('bin', '*', s, ('call', 'sqrt', [('bin', '*', ir.num(2), ('pi',))])))
+        if d in self.callees:
+            cname, extras, npos = self.callees[d]
+            if len(args) != npos or n.keywords:
+                raise Untranslatable('call of %s with an unexpected argument list' % d, n)
+            return ('ucall', cname, tuple(extras), [self.bind('arg', self.expr(a, env)) for a in args])
         if d in self.inline:
             callee = self.tr.find(d)
             names = [x.arg for x in callee.args.args if x.arg != 'self']
